@@ -28,7 +28,7 @@ func AlphaSiafunds(w *World) []Action {
 // AlphaV1Contracts: v1 contract life cycle.
 func AlphaV1Contracts(w *World) []Action {
 	return []Action{
-		V1Form(1, 2, 100), V1Form(0, 1, 10), V1Revise("pay"), V1Revise("grow"), V1Revise("window"), V1Revise("max"), V1Proof(false), V1Proof(true), V1Pay(true, 1),
+		V1Form(1, 2, 100), V1Form(0, 1, 10), V1Revise("pay"), V1Revise("grow"), V1Revise("window"), V1Revise("max"), V1Proof(false), V1ProofFee(), V1Proof(true), V1Pay(true, 1),
 	}
 }
 
